@@ -3,6 +3,9 @@
 package alg
 
 import (
+	"encoding/json"
+
+	"github.com/bytedance/sonic/internal/native/types"
 	v "github.com/bytedance/sonic/internal/zzverif"
 )
 
@@ -17,5 +20,45 @@ func VerifC03IsValidNumber() {
 		v.Cover("valid")
 	} else {
 		v.Cover("invalid")
+	}
+}
+
+// VerifC02ValidTrailing: alg.Valid (behind sonic.Valid / ValidString / encoder.Valid) adds the
+// end-of-input rule on top of the native validator: after the value, only JSON white space
+// (exactly the bytes the real encoding/json.isSpace accepts) may follow; the reported
+// position is that of the first other byte.
+func VerifC02ValidTrailing() {
+	n := v.Int("n", 1, 3)
+	data := v.BytesN("data", n, 3)
+	end := v.Int("valueEnd", 1, 3)
+	v.Assume(end <= n)
+	v.Stub("github.com/bytedance/sonic/internal/native.ValidateOne", func(s *string, p *int, m *types.StateMachine, flags uint64) int {
+		*p = end // the native validator accepted one value ending at `end`
+		return 0
+	})
+	ok, pos := Valid(data)
+	if !v.Symbolic() {
+		// natively the real validator decides where a value ends: the model's tail is put
+		// after a one-byte value and the verdict compared with encoding/json
+		doc := append([]byte("1"), data[end:]...)
+		got, _ := Valid(doc)
+		v.Assert(got == json.Valid(doc), "Valid and encoding/json.Valid disagree on a value followed by the model's trailing bytes")
+		return
+	}
+	firstBad := -1
+	for i := n - 1; i >= end; i-- {
+		if !v.JSONIsSpace(data[i]) {
+			firstBad = i
+		}
+	}
+	if firstBad < 0 {
+		v.Assert(ok, "Valid rejects a value followed only by JSON white space")
+		v.Cover("accept")
+	} else {
+		v.Assert(!ok, "Valid accepts a document with a byte after the value that is not JSON white space")
+		if !ok {
+			v.Assert(pos == firstBad, "Valid reports another position than the first byte that is not white space")
+		}
+		v.Cover("reject")
 	}
 }
